@@ -1099,8 +1099,19 @@ impl TieredEngine {
     where
         F: Fn(&std::collections::HashMap<String, String>) -> bool,
     {
-        // Scan hot tier
-        let hot_ids = self.hot_tier.scan(&predicate);
+        // Scan hot tier. The mirror keeps its own copy of the metadata, which goes stale when
+        // the canonical record is rewritten without passing through the mirror (bulk load):
+        // a mirror match only counts if the canonical metadata matches too (mirror-only
+        // entries have no canonical record and are still swept).
+        let hot_ids: Vec<u64> = self
+            .hot_tier
+            .scan(&predicate)
+            .into_iter()
+            .filter(|doc_id| match self.cold_tier.fetch_metadata(*doc_id) {
+                Some(canonical) => predicate(&canonical),
+                None => true,
+            })
+            .collect();
 
         // Scan cold tier
         let cold_ids = self.cold_tier.scan(&predicate);
@@ -1120,9 +1131,17 @@ impl TieredEngine {
     /// Hot tier is scanned (bounded size). Cold tier uses an inverted index fast path
     /// for common filter shapes and falls back to scan for `Range`.
     pub fn batch_delete_by_metadata_filter(&self, filter: &MetadataFilter) -> Result<u64> {
-        let hot_ids = self
+        // See batch_delete_by_filter: a stale mirror copy of the metadata must not select a
+        // document whose canonical metadata does not satisfy the filter.
+        let hot_ids: Vec<u64> = self
             .hot_tier
-            .scan(|meta| crate::metadata_filter::matches(filter, meta));
+            .scan(|meta| crate::metadata_filter::matches(filter, meta))
+            .into_iter()
+            .filter(|doc_id| match self.cold_tier.fetch_metadata(*doc_id) {
+                Some(canonical) => crate::metadata_filter::matches(filter, &canonical),
+                None => true,
+            })
+            .collect();
 
         let cold_ids = self.cold_tier.ids_for_metadata_filter(filter);
 
